@@ -231,3 +231,31 @@ def float_rounds_to(x, v):
     except OverflowError:
         f = float('inf')
     return f == v
+_AMBIENT = []
+
+
+def ambient():
+    """innermost active `with` model object (model context managers push/pop themselves natively)"""
+    return _AMBIENT[-1] if _AMBIENT else None
+
+
+def callable_name(f):
+    """dotted name of an external callable ('gmpy2.add'); 'module:function' for a plain python function"""
+    mod = getattr(f, '__module__', None)
+    nm = getattr(f, '__qualname__', getattr(f, '__name__', None))
+    if nm is None or nm == '<lambda>':
+        return None
+    if type(f).__name__ == 'builtin_function_or_method':
+        return f"{mod or 'gmpy2'}.{nm}"
+    if type(f).__name__ == 'function':
+        return f'{mod}:{nm}'
+    return None
+
+
+def apply_lemma(name, **kw):
+    """lemma application: a proof step for the symbolic checker; natively a no-op"""
+    return True
+
+
+def obj_id(o):
+    return id(o)
